@@ -41,7 +41,7 @@ Forms == /\ ~done
 
 (* cfg-gated variants: a gated extra value, or two variants sharing a value under exclusive gates *)
 GatedVariants == /\ ~done
-         /\ \E exh \in Exhs : \E shape \in 1..6 :
+         /\ \E exh \in Exhs : \E shape \in 1..8 :
               LET base == Plain(2, exh, {0, 1, 2}, "asc").variants IN
               e' = [name |-> "E", n |-> 2, exh |-> exh, variants |->
                      CASE shape = 1 -> Append(base, V(3, DSeq(3, 2), "on", "lit"))
@@ -49,7 +49,10 @@ GatedVariants == /\ ~done
                        [] shape = 3 -> <<V(9, DSeq(1, 2), "off", "lit")>> \o [k \in 1..3 |-> IF k = 2 THEN [base[k] EXCEPT !.cfg = "on"] ELSE base[k]]
                        [] shape = 4 -> [k \in 1..3 |-> IF k = 2 THEN [base[k] EXCEPT !.cfg = "on"] ELSE base[k]] \o <<V(9, DSeq(1, 2), "off", "lit")>>
                        [] shape = 5 -> base \o <<V(3, DSeq(3, 2), "on", "lit"), V(4, DSeq(3, 2), "off", "lit"), V(5, DSeq(0, 2), "off", "lit")>>
-                       [] shape = 6 -> base \o <<V(3, DSeq(3, 2), "off", "lit"), V(4, DSeq(4, 2), "off", "lit")>>]
+                       [] shape = 6 -> base \o <<V(3, DSeq(3, 2), "off", "lit"), V(4, DSeq(4, 2), "off", "lit")>>
+                       (* two #[cfg] attributes on one variant: compiled in only if BOTH hold *)
+                       [] shape = 7 -> base \o <<V(3, DSeq(3, 2), "onoff", "lit"), V(4, DSeq(3, 2), "on", "lit")>>
+                       [] shape = 8 -> <<V(9, DSeq(1, 2), "offon", "lit")>> \o [k \in 1..3 |-> IF k = 2 THEN [base[k] EXCEPT !.cfg = "on"] ELSE base[k]]]
          /\ done' = TRUE
 
 (* the #[cfg] gate is not the variant's first attribute (a doc comment precedes it) *)
